@@ -22,6 +22,7 @@ package meta
 //@   assigns [C20] nothing
 //@ func (*Meta).GetBytes
 //@   requires m != nil && wfMeta(m)
+//@   ensures [C19] value: result1 == nil ==> has(m.Values, key) && bytes(result0) == nodeBytes(m.Values[key])
 //@   assigns [C20] nothing
 //@ func (*Meta).GetNode
 //@   inline
@@ -53,3 +54,30 @@ package meta
 //@   requires m != nil
 //@   assigns [C20] nothing
 //@   loop 0: invariant fresh(res)
+//@
+//@ // ---- C19: encrypted values: what is stored, and what a successful read returns -----------------------------------
+//@ func (*Meta).Add
+//@   requires m != nil && m.Values != nil
+//@   use bytes_node
+//@   ensures [C19] stored: result == nil ==> has(m.Values, key) && m.Values[key] != nil && (val is []byte ==> m.Values[key] == bytesNode(bytes(val.([]byte))))
+//@   ensures [C19] others: forall k string :: k != key ==> has(m.Values, k) == old(has(m.Values, k)) && m.Values[k] == old(m.Values[k])
+//@   assigns m.Keys, m.Values
+//@ // the plaintext offered to AddEncrypted (a string or a byte slice)
+//@ pure func plainOf(val any) string = val is string ? val.(string) : bytes(val.([]byte))
+//@ // the stored value is nonce || secretbox(plaintext) under the given key, which must be acceptable
+//@ func (*Meta).AddEncrypted
+//@   requires m != nil && m.Values != nil
+//@   use bytes_node
+//@   ensures [C19] stored: result == nil ==> keyOK(encryptionKey) && (val is string || val is []byte) && has(m.Values, key) && (exists n string :: len(n) == 24 && nodeBytes(m.Values[key]) == n ++ sbBox(plainOf(val), n, bytes(encryptionKey)))
+//@   assigns m.Keys, m.Values
+//@ // a value is returned only if the stored bytes authenticate under (their first 24 bytes, the key): the opened message
+//@ pure func openedAs(stored string, key []byte, plain string) bool =
+//@     len(stored) >= 24 && sbOpenOK(substr(stored, 24, len(stored)), substr(stored, 0, 24), bytes(key)) && plain == sbOpenMsg(substr(stored, 24, len(stored)), substr(stored, 0, 24), bytes(key))
+//@ func (*Meta).GetEncryptedBytes
+//@   requires m != nil && wfMeta(m)
+//@   ensures [C19] opened: result1 == nil ==> keyOK(encryptionKey) && has(m.Values, key) && openedAs(nodeBytes(m.Values[key]), encryptionKey, bytes(result0))
+//@   assigns [C20] nothing
+//@ func (*Meta).GetEncryptedString
+//@   requires m != nil && wfMeta(m)
+//@   ensures [C19] opened: result1 == nil ==> keyOK(encryptionKey) && has(m.Values, key) && openedAs(nodeBytes(m.Values[key]), encryptionKey, result0)
+//@   assigns [C20] nothing
